@@ -352,6 +352,102 @@ fn feed(t: &mut Tally, ty: &str, json: bool, input: &str, watch: &Arc<std::sync:
     }
 }
 
+/// every path to a value inside a JSON document
+fn json_paths(v: &Value, cur: &mut Vec<String>, out: &mut Vec<Vec<String>>) {
+    match v {
+        Value::Object(m) => {
+            for (k, x) in m {
+                cur.push(k.clone());
+                out.push(cur.clone());
+                json_paths(x, cur, out);
+                cur.pop();
+            }
+        }
+        Value::Array(a) => {
+            for (i, x) in a.iter().enumerate() {
+                cur.push(format!("#{i}"));
+                out.push(cur.clone());
+                json_paths(x, cur, out);
+                cur.pop();
+            }
+        }
+        _ => {}
+    }
+}
+
+fn json_at<'a>(v: &'a mut Value, path: &[String]) -> Option<&'a mut Value> {
+    let mut cur = v;
+    for k in path {
+        cur = if let Some(i) = k.strip_prefix('#') { cur.get_mut(i.parse::<usize>().ok()?)? } else { cur.get_mut(k.as_str())? };
+    }
+    Some(cur)
+}
+
+fn json_delete(v: &mut Value, path: &[String]) {
+    if let Some((last, parent)) = path.split_last() {
+        if let Some(p) = json_at(v, parent) {
+            if let Some(i) = last.strip_prefix('#') {
+                if let (Some(a), Ok(i)) = (p.as_array_mut(), i.parse::<usize>()) {
+                    if i < a.len() {
+                        a.remove(i);
+                    }
+                }
+            } else if let Some(m) = p.as_object_mut() {
+                m.remove(last.as_str());
+            }
+        }
+    }
+}
+
+/// structural faults of a JSON encoding: delete a member, replace a value by an extreme / foreign one,
+/// and pairs (delete one member + make one number extreme)
+fn mutate_json(src: &str, max: usize, mut f: impl FnMut(&str, String)) {
+    let Ok(doc) = serde_json::from_str::<Value>(src) else { return };
+    let mut paths = vec![];
+    json_paths(&doc, &mut vec![], &mut paths);
+    let extremes: Vec<Value> = vec![json!(u64::MAX), json!(1u64 << 60), json!(-1), json!(1.5), json!(1e308), json!(null), json!(""), json!([]), json!({}), json!(true),
+                                    json!("18446744073709551616")];
+    let mut n = 0;
+    for p in &paths {
+        let mut d = doc.clone();
+        json_delete(&mut d, p);
+        f("jdel", d.to_string());
+        for e in &extremes {
+            let mut d = doc.clone();
+            if let Some(x) = json_at(&mut d, p) {
+                *x = e.clone();
+            }
+            f("jset", d.to_string());
+        }
+        n += 1;
+        if n >= max {
+            break;
+        }
+    }
+    // pairs: one deletion + one number made huge
+    let nums: Vec<&Vec<String>> = paths.iter().filter(|p| { let mut d = doc.clone(); json_at(&mut d, p).map(|x| x.is_number()).unwrap_or(false) }).collect();
+    let mut k = 0;
+    for del in &paths {
+        for num in &nums {
+            if k >= max * 8 {
+                return;
+            }
+            if num.starts_with(del) {
+                continue;
+            }
+            for e in [json!(u64::MAX), json!(1u64 << 60)] {
+                let mut d = doc.clone();
+                if let Some(x) = json_at(&mut d, num) {
+                    *x = e;
+                }
+                json_delete(&mut d, del);
+                f("jpair", d.to_string());
+                k += 1;
+            }
+        }
+    }
+}
+
 fn mutate(src: &str, stride: usize, mut f: impl FnMut(&str, String)) {
     let idx: Vec<(usize, char)> = src.char_indices().collect();
     for (k, &(p, c)) in idx.iter().enumerate() {
@@ -450,6 +546,23 @@ pub fn run(sc: &Value) -> Vec<String> {
             let valid = back.as_ref().map(|b| b.validate().is_ok()).unwrap_or(false);
             cline(&mut out, &mut encs, "pkg", pv(&p), None, Some((j, back.as_ref().map(pv))), json!(valid));
         }
+        // hand-assembled snapshot (public fields): orders in arbitrary, not timestamp, order
+        {
+            let mut os = l.iter_orders();
+            for k in (1..os.len()).rev() {
+                let j = rng.below(k + 1);
+                os.swap(k, j);
+            }
+            let hs = PriceLevelSnapshot { price: sn.price, visible_quantity: num(&mut rng), hidden_quantity: num(&mut rng), order_count: rng.below(9), orders: os };
+            cline(&mut out, &mut encs, "snapseq", snap_v(&hs), None, Some(rt_json(&hs, snap_v)), Value::Null);
+            if let Ok(p) = PriceLevelSnapshotPackage::new(hs.clone()) {
+                let pv = |y: &PriceLevelSnapshotPackage| json!({"version": s(y.version), "snapshot": snap_v(&y.snapshot), "checksum": y.checksum});
+                let j = p.to_json().unwrap_or_default();
+                let back = guard(|| PriceLevelSnapshotPackage::from_json(&j).ok()).flatten();
+                let valid = back.as_ref().map(|b| b.validate().is_ok()).unwrap_or(false);
+                cline(&mut out, &mut encs, "pkgseq", pv(&p), None, Some((j, back.as_ref().map(pv))), json!(valid));
+            }
+        }
         let q = OrderQueue::from_vec(l.iter_orders());
         let qv = |y: &OrderQueue| Value::Array(y.to_vec().iter().map(|o| order_v(o)).collect());
         let t = q.to_string();
@@ -534,6 +647,12 @@ pub fn run(sc: &Value) -> Vec<String> {
             let t = res.entry((ty.to_string(), *js, kind.to_string())).or_insert(Tally { n: 0, ok: 0, err: 0, panic: 0, first: None });
             feed(t, ty, *js, &input, &watch);
         });
+        if *js {
+            mutate_json(src, 60, |kind, input| {
+                let t = res.entry((ty.to_string(), true, kind.to_string())).or_insert(Tally { n: 0, ok: 0, err: 0, panic: 0, first: None });
+                feed(t, ty, true, &input, &watch);
+            });
+        }
         // cross-feeding: the unmodified text into every other parser of the same family
         let all: &[&str] = if *js { &JSON_TYPES } else { &TEXT_TYPES };
         for other in all {
